@@ -255,11 +255,42 @@ fn gen_cases(args: &crate::Args) -> Vec<Case> {
             }
         }
     }
+    // systematic part: every byte that is close to a special (off by one, or one bit away) directly before and
+    // after that special, at every offset of a 24-byte run — word-at-a-time or table-driven scans have their
+    // corner cases here, not in three-character strings
+    for sp in [b'<', b'>', b'&', b'"', b'\''] {
+        let mut near: Vec<u8> = vec![sp.wrapping_sub(1), sp + 1, sp | 0x80];
+        for bit in 0..7 {
+            near.push(sp ^ (1 << bit));
+        }
+        for nb in near {
+            if nb == 0 || nb >= 0x80 {
+                continue;
+            }
+            for pos in 0..10usize {
+                for order in 0..2 {
+                    let mut t = vec![b'x'; 24];
+                    let (a, b) = if order == 0 { (nb, sp) } else { (sp, nb) };
+                    t[pos] = a;
+                    t[pos + 1] = b;
+                    let text = String::from_utf8(t).unwrap();
+                    out.push(Case { mode: "esc", pieces: vec![text.clone()], sched: vec![] });
+                    if pos % 3 == 0 {
+                        out.push(Case { mode: "esc", pieces: vec![text[..5].to_string(), text[5..].to_string()], sched: vec![Resp::Accept(3), Resp::Interrupted, Resp::Accept(1 << 20)] });
+                        out.push(Case { mode: "buf", pieces: vec![text.clone()], sched: vec![] });
+                    }
+                }
+            }
+        }
+    }
     // random part: longer strings, failures, zero-length accepts
     let mut r = Rng::new(args.seed, "html");
     let pool: Vec<&str> = vec!["<", ">", "&", "\"", "'", "a", "bc", "é", "日本", " ", "&amp;", "&lt;", "<script>", "\u{0}", "\n", "😀", "xyz0123456789",
         // scalars whose low byte is one of the five specials (U+2022, U+0126, U+0127, U+013C, U+013E, U+1F33C)
-        "\u{2022}", "\u{126}", "\u{127}", "\u{13c}", "\u{13e}", "\u{1f33c}"];
+        "\u{2022}", "\u{126}", "\u{127}", "\u{13c}", "\u{13e}", "\u{1f33c}",
+        // the ASCII neighbours of the specials and other punctuation
+        "!", "#", "$", "%", "(", ")", "=", "?", ";", ":", "/", "\\", "`", "~", "|", "{", "}", "[", "]", "@", "^", "_", "-", "+", "*", ",", ".",
+        "href=\"#\">", "a=<b?>", "x&#y;", "\u{1}\u{7f}"];
     for _ in 0..args.n {
         let np = r.below(6);
         let mut pieces = Vec::new();
